@@ -54,7 +54,8 @@ def shard(ctx, acc):
         if i < 3:
             acc.sample(dict(W.brief_case(case), smart=smart, mutations_checked=sum(st.get("mutations", {}).values())))
         if r["problems"]:
-            acc.violation(r["problems"][0][0], r["problems"][:3], dict(case, smart=smart))
+            acc.violation(r["problems"][0][0], r["problems"][:3] + [("log", st.get("log_about_first_bad_path"), st.get("rejected_ops"))],
+                          dict(case, smart=smart))
 
 
 def conclusive(acc, tier):
